@@ -169,6 +169,14 @@ def encodeStringBase (c : EncCfg) (s : Str) (nq : Bool) : Except EErr Str :=
     | none => .error .value
   else .ok s
 
+/-- `ODLEncoder._encode_text_string`: quoted as `PVLEncoder` does; a result in single quotes is a Symbol
+    String and may not hold a format effector -/
+def encodeTextString (c : EncCfg) (s : Str) : Except EErr Str :=
+  match encodeStringBase c s true with
+  | .ok t =>
+    if startsWith t [39] && c.g.formatEffectors.any (fun f => s.contains f) then .error .value else .ok t
+  | .error e => .error e
+
 /-- `encode_string` of each class -/
 def encodeString (c : EncCfg) (s : Str) : Except EErr Str :=
   match c.kind with
@@ -182,7 +190,7 @@ def encodeString (c : EncCfg) (s : Str) : Except EErr Str :=
     | .ok false => .ok s
     | .ok true =>
       if isSymbol c s then .ok ([39] ++ s ++ [39])
-      else encodeStringBase c s true
+      else encodeTextString c s
   | .pds =>
     match needsQuotes c s with
     | .error e => .error e
@@ -190,8 +198,7 @@ def encodeString (c : EncCfg) (s : Str) : Except EErr Str :=
     | .ok true =>
       if isSymbol c s && c.symbolSingleQuote then .ok ([39] ++ s ++ [39])
       else
-        -- `super(ODLEncoder, self).encode_string`: PVLEncoder's, with this class's needs_quotes
-        encodeStringBase c s true
+        encodeTextString c s
 
 /-- the exponent check of `ODLEncoder.encode_units`: every `**` followed by a character (not a
     newline) must be followed by a decimal digit. -/
